@@ -29,7 +29,7 @@ CHUNK = 10
 # object family
 
 FEATURES = ["tie", "slur", "tuplet", "grace", "repeat", "volta", "nav", "two_parts", "div_change", "staff2", "pickup", "dirs",
-            "overlap", "chord_unequal", "marks", "bare", "open_dirs"]
+            "overlap", "chord_unequal", "marks", "bare", "open_dirs", "long"]
 
 
 def score_spec(feats):
@@ -104,6 +104,15 @@ def score_spec(feats):
         objs.append({"k": "wedge", "s": b1, "e": b2, "dir": "+", "staff": 1})
         objs.append({"k": "words", "s": b0, "text": "dolce", "staff": 1})
         objs.append({"k": "tempo", "s": b0, "bpm": 90, "unit": "q"})
+    if "long" in f:
+        # magnitude: 120 more measures with a repeat around the first 60 of them - several hundred time points, more than
+        # copy.deepcopy can follow within the default recursion limit (the library raises the limit where it copies)
+        for i in range(120):
+            s0 = end + 8 * i
+            objs.append({"k": "measure", "s": s0, "e": s0 + 8, "number": mnum + i, "name": str(mnum + i)})
+            objs.append({"k": "note", "s": s0, "e": s0 + 4, "id": "L%da" % i, "step": "C", "oct": 4, "voice": 1, "staff": 1, "sym": {"type": "quarter"}})
+            objs.append({"k": "note", "s": s0 + 4, "e": s0 + 8, "id": "L%db" % i, "step": "E", "oct": 4, "voice": 1, "staff": 1, "sym": {"type": "quarter"}})
+        objs.append({"k": "repeat", "s": end, "e": end + 8 * 60})
     if "marks" in f:
         # every kind of marking the exporters turn into attribute lists: articulations, ornaments, fingering, fermata
         for o in objs:
@@ -703,7 +712,7 @@ def eval_case(case):
 
 def feature_sets(tier):
     sets = [[]] + [[f] for f in FEATURES]
-    pairs = [list(p) for p in itertools.combinations(FEATURES, 2)]
+    pairs = [list(p) for p in itertools.combinations([x for x in FEATURES if x != "long"], 2)]  # ("long" alone: cost)
     return sets, pairs
 
 
